@@ -5,6 +5,8 @@
 package hist
 
 import (
+	"crypto/sha1"
+	"encoding/hex"
 	"errors"
 	"fmt"
 	"os"
@@ -655,11 +657,17 @@ func BFS(p *Pool, ops []Op, maxLive int, maxStates int, workers int, expired fun
 // over a history, would multiply the state space without changing any observable behaviour
 // (allocation behaviour is C16's subject).
 func key(s *State) string {
+	if len(s.Shape) == 40 && !strings.Contains(s.Shape, "\n") {
+		return s.Model.String() + "\n" + s.Shape // already compacted
+	}
 	sh := s.Shape
 	if i := strings.Index(sh, " maxParams="); i >= 0 {
 		if j := strings.IndexByte(sh, '\n'); j > i {
 			sh = sh[:i] + sh[j:]
 		}
 	}
-	return s.Model.String() + "\n" + sh
+	// states are kept by the million: store a digest of the dump, not the dump
+	d := sha1.Sum([]byte(sh))
+	s.Shape = hex.EncodeToString(d[:])
+	return s.Model.String() + "\n" + s.Shape
 }
